@@ -607,6 +607,48 @@ impl Serialize for Exact {
 /// display-as-string newtypes): what is decoded as a string equals the formatted text, and exactly the produced
 /// bytes are consumed, for every encode / decode entry point pairing exercised here.
 fn c01_extras(t: &mut Tctx) {
+    // owned string types (String, Box<str>, Cow<str>, PathBuf) on long texts of multi-byte scalars, every alignment
+    {
+        let mut idx = 0u64;
+        for target in [200usize, 300, 500, 511, 512, 513, 520, 1020, 1030, 2050, 4100, 8200, 16_400, 70_001] {
+            for lead in 0..4usize {
+                for scalar in ["\u{e9}", "\u{65e5}", "\u{1f980}", "\u{e9}\u{65e5}\u{1f980}x"] {
+                    idx += 1;
+                    if !t.mine(idx) || t.cfg.expired() {
+                        continue;
+                    }
+                    let mut txt = "a".repeat(lead);
+                    while txt.len() < target {
+                        txt.push_str(scalar);
+                    }
+                    t.st.eval();
+                    t.st.count("c01_long_text_roundtrips");
+                    t.st.nontrivial(fp_mix(0xC01_7E87, fp(txt.as_bytes())));
+                    let want = spec::encode(&Val::Str(txt.clone()));
+                    let r = catch(|| {
+                        let enc = postcard::to_allocvec(&txt)?;
+                        let a: String = postcard::from_bytes(&enc)?;
+                        let b: Box<str> = postcard::from_bytes(&enc)?;
+                        let c: std::borrow::Cow<'_, str> = postcard::from_bytes(&enc)?;
+                        let d: std::path::PathBuf = postcard::from_bytes(&enc)?;
+                        let mut scratch = vec![0u8; txt.len()];
+                        let (e, _) = postcard::from_io::<String, _>((&enc[..], &mut scratch[..]))?;
+                        let (f, rest): ((String, u8), &[u8]) = postcard::take_from_bytes(&[&enc[..], &[7u8, 9][..]].concat()).map(|(v, r)| (v, r.len())).map(|(v, n)| (v, if n == 1 { &[0u8][..] } else { &[][..] }))?;
+                        Ok::<_, postcard::Error>((enc, a, b.into_string(), c.into_owned(), d, e, f, rest.len()))
+                    });
+                    let okay = matches!(&r, Ok(Ok((enc, a, b, c, d, e, f, 1))) if *enc == want && *a == txt && *b == txt && *c == txt && d.to_str() == Some(&txt[..]) && *e == txt && f.0 == txt && f.1 == 7);
+                    if !okay {
+                        t.st.violation(
+                            "C01:long-text-roundtrip-differs",
+                            format!("a {}-byte text of multi-byte scalars ({} leading ASCII bytes) does not round-trip through the owned string types: {:?}", txt.len(), lead, r.map(|x| x.map(|v| (v.1.len(), v.2.len(), v.3.len())).map_err(|e| err_label(&e)))),
+                            vec![kv("kind", "long_text"), kv("len", txt.len().to_string()), kv("lead", lead.to_string())],
+                        );
+                        return;
+                    }
+                }
+            }
+        }
+    }
     let rounds = t.cfg.scale(10, 8_000, 160_000);
     for _ in 0..rounds {
         if t.cfg.expired() {
@@ -1128,6 +1170,18 @@ fn enumerate_boundaries(t: &mut Tctx, which: &str) {
             vals.push((Shape::Str, Val::Str("q".repeat(len))));
             vals.push((Shape::Bytes, Val::Bytes(vec![0xA7; len])));
         }
+        // long texts of multi-byte scalars at every alignment (a scalar straddles every internal chunk boundary)
+        for target in [300usize, 520, 1030, 2050, 4100, 8200, 70_001] {
+            for lead in 0..4usize {
+                for scalar in ["\u{e9}", "\u{65e5}", "\u{1f980}", "\u{e9}\u{65e5}\u{1f980}x"] {
+                    let mut txt = "a".repeat(lead);
+                    while txt.len() < target {
+                        txt.push_str(scalar);
+                    }
+                    vals.push((Shape::Str, Val::Str(txt)));
+                }
+            }
+        }
         vals.push((Shape::Seq(Box::new(Shape::U8)), Val::Seq(vec![Val::U8(9); 70_000])));
         vals.push((Shape::Seq(Box::new(Shape::Unit)), Val::Seq(vec![Val::Unit; 300_000])));
         vals.push((Shape::Map(Box::new(Shape::U8), Box::new(Shape::Bool)), Val::Map((0..20_000).map(|i| (Val::U8(i as u8), Val::Bool(i % 3 == 0))).collect())));
@@ -1362,6 +1416,9 @@ pub fn run(cfg: &Cfg, which: &str) -> Report {
         if cfg.tier != Tier::Tiny {
             let s8 = parallel(&Cfg { threads: 1, ..cfg.clone() }, 8, |t| c02_huge_payloads(t));
             rep.stats.merge(s8);
+            let s9 = parallel(cfg, 9, |t| call_sequences_lane(t, "C02"));
+            rep.stats.merge(s9);
+            rep.floor("call_sequence_rounds", 5);
         }
     }
     if which == "C01" {
@@ -1448,6 +1505,8 @@ fn replay(cfg: &Cfg, which: &str, p: &std::path::Path) -> Stats {
                 }
             } else if kind == "huge_payload" {
                 c02_huge_payloads(t);
+            } else if kind == "call-sequence" {
+                call_sequences_lane(t, "C02");
             } else {
                 c02_extras(t);
             }
